@@ -128,7 +128,7 @@ func cmdCheck(args []string) int {
 		if _, ok := done[k]; ok {
 			continue
 		}
-		fn := fns[k]
+		fn := fns[strings.TrimSuffix(k, "#impl")]
 		con := cs.ByKey[k]
 		if fn == nil {
 			done[k] = &FuncResult{Key: k, Err: "BINDING: function " + k + " named by a contract does not exist"}
